@@ -74,7 +74,11 @@ Definition t3sub (u v : Z * Z * Z) : Z * Z * Z := (fst (fst u) - fst (fst v), sn
 
 Lemma fan_cons2 : forall b p q t, fan b (p :: q :: t) = t3add (tri b p q) (fan b (q :: t)).
 Proof.
-  intros b p q t. cbn [fan]. destruct (fan b (q :: t)) as [[a mx] my]. unfold t3add, tri. cbn [fst snd]. reflexivity.
+  intros b p q t.
+  change (fan b (p :: q :: t)) with
+    (let '(a, mx, my) := fan b (q :: t) in
+     let a2 := orient b p q in (a2 + a, a2 * (px b + px p + px q) + mx, a2 * (py b + py p + py q) + my)).
+  destruct (fan b (q :: t)) as [[a mx] my]. unfold t3add, tri. cbn [fst snd]. reflexivity.
 Qed.
 
 Lemma fan_base_change : forall b b' c d, c <> [] ->
@@ -112,9 +116,7 @@ Lemma fan_tr : forall t b c, fan (tr t b) (map (tr t) c) =
 Proof.
   intros t b c. induction c as [|p [|q r] IH]; [cbn; f_equal; [f_equal|]; ring | cbn; f_equal; [f_equal|]; ring |].
   change (map (tr t) (p :: q :: r)) with (tr t p :: tr t q :: map (tr t) r).
-  change (tr t q :: map (tr t) r) with (map (tr t) (q :: r)) in *.
   rewrite fan_cons2.
-  change (map (tr t) (q :: r)) with (tr t q :: map (tr t) r) at 1.
   change (tr t q :: map (tr t) r) with (map (tr t) (q :: r)).
   rewrite IH, (fan_cons2 b p q r). destruct (fan b (q :: r)) as [[a mx] my].
   unfold t3add, tri. rewrite orient_tr. unfold tr, px, py. cbn [fst snd]. f_equal; [f_equal|]; ring.
@@ -161,17 +163,23 @@ Proof.
   rewrite shift_add. f_equal. apply acc_eq; unfold shift; cbn; ring.
 Qed.
 
+Lemma acc_poly_tr : forall k t b s hs,
+  fold_right (fun h acc => acc_add (acc_ring k (tr t b) (-1) h) acc) (acc_ring k (tr t b) 1 (map (tr t) s)) (map (translate_pts t) hs)
+  = shift t (fold_right (fun h acc => acc_add (acc_ring k b (-1) h) acc) (acc_ring k b 1 s) hs).
+Proof.
+  intros k t b s hs. induction hs as [|h hr IHh]; cbn [map fold_right].
+  - apply acc_ring_tr.
+  - rewrite IHh, shift_add. f_equal. rewrite translate_pts_map. apply acc_ring_tr.
+Qed.
+
 Lemma acc_geom_translate : forall k t g, acc_geom k (translate t g) = shift t (acc_geom k g).
 Proof.
   intros k t. induction g as [c|c|c|s hs|ty gs IH] using geom_ind'; cbn [translate acc_geom]; rewrite ?translate_pts_map.
   - destruct c as [|f r]; [symmetry; apply shift_0|]. cbn [map]. apply acc_eq; unfold shift, tr, px, py; cbn; ring.
   - apply acc_line_tr.
   - apply acc_line_tr.
-  - destruct s as [|b s']; [symmetry; apply shift_0|]. cbn [map].
-    change (tr t b :: map (tr t) s') with (map (tr t) (b :: s')).
-    induction hs as [|h hr IHh]; cbn [map fold_right].
-    + apply acc_ring_tr.
-    + rewrite IHh, shift_add. f_equal. rewrite translate_pts_map. apply acc_ring_tr.
+  - destruct s as [|b s']; [symmetry; apply shift_0|].
+    exact (acc_poly_tr k t b (b :: s') hs).
   - induction IH as [|x r Hx _ IHr]; cbn [map fold_right]; [symmetry; apply shift_0|].
     rewrite Hx, IHr, shift_add. reflexivity.
 Qed.
@@ -182,14 +190,15 @@ Theorem centroid_translation : forall k t g kind nx ny d, centroid k g = Some (k
 Proof.
   intros k t g kind nx ny d H. unfold centroid in *. rewrite acc_geom_translate.
   set (a := acc_geom k g) in *. unfold centroid_of_acc in *. unfold shift. cbn [aA aMx aMy aL aLx aLy aN aPx aPy].
-  destruct (negb (aA a =? 0)); [inversion H; subst; f_equal; f_equal; [f_equal|]; [f_equal|..]; ring|].
-  destruct (0 <? aL a); [inversion H; subst; f_equal; f_equal; [f_equal|]; [f_equal|..]; ring|].
-  destruct (0 <? aN a); [inversion H; subst; f_equal; f_equal; [f_equal|]; [f_equal|..]; ring|].
+  remember (3 * aA a) as d3 eqn:E3. remember (2 * aL a) as d2 eqn:E2.
+  destruct (negb (aA a =? 0)); [injection H; intros; subst kind nx ny d; apply f_equal; repeat (apply injective_projections; cbn [fst snd]); try reflexivity; subst d3; ring|].
+  destruct (0 <? aL a); [injection H; intros; subst kind nx ny d; apply f_equal; repeat (apply injective_projections; cbn [fst snd]); try reflexivity; subst d2; ring|].
+  destruct (0 <? aN a); [injection H; intros; subst kind nx ny d; apply f_equal; repeat (apply injective_projections; cbn [fst snd]); try reflexivity; ring|].
   discriminate.
 Qed.
 
 Example centroid_ex_area : centroid 8 (GColl 7 [GPoint [(9,9)]; GPoly [(0,0); (6,0); (6,6); (0,6); (0,0)] [[(1,1); (1,2); (2,2); (2,1); (1,1)]]])
-  = Some (2, 6660, 6660, 2100).
+  = Some (2, 639, 639, 210).
 Proof. vm_compute. reflexivity. Qed.
 Example centroid_ex_fallback : centroid 8 (GColl 7 [GPoly [(0,0); (1,0); (2,0); (0,0)] []; GPoint [(5,5)]]) = Some (1, 2048, 0, 2048).
 Proof. vm_compute. reflexivity. Qed.
